@@ -87,8 +87,10 @@ def _mentions(x, name):
 
 
 class Fn:
-    def __init__(self, rng, idx):
+    def __init__(self, rng, idx, callables=()):
         self.rng = rng
+        self.callables = list(callables)      # earlier generated functions this one may call (their schemes are inferred by the specification)
+        self.deps = []
         self.name = "q%d" % idx
         self.n = 0
         self.eqs = []
@@ -140,7 +142,7 @@ class Fn:
              "fst": "any", "snd": "any", "map": "sl", "append": "sl", "push": "sl", "applyf": "any", "rec": "named", "ctor": "named",
              "ipair": "tup", "iid": "any", "iswap": "tup", "iconst": "int", "concat": "str", "sprintf": "str",
              "gbox": "named", "gsome": "named", "iwrap": "named", "iunbox": "int", "ioptlen": "int",
-             "ifx": "any", "pipe": "any", "pappmap": "sl", "applyl": "any", "fold": "int", "filter": "sl", "selfcall": "any"}
+             "ifx": "any", "pipe": "any", "pappmap": "sl", "applyl": "any", "fold": "int", "filter": "sl", "selfcall": "any", "callq": "any"}
 
     def generic_value(self, d, arg_want):
         """an expression of type IBox<t> / IOpt<t> (kind chosen by the caller through arg_want = ("IBox"|"IOpt", base or None))"""
@@ -306,6 +308,24 @@ class Fn:
             b, tb, xb = E()
             self.eq(ta, INT)
             return "iconst %s %s" % (self.atom(a), self.atom(b)), INT, call("iconst", xa, xb)
+        if o == "callq":
+            # a call of an earlier generated function: a fresh instance of its inferred, generalised type
+            cs = [c for c in self.callables if 1 <= len(c.params) <= 3]
+            if not cs or len(self.deps) >= 2:
+                return self.expr(d - 1, want)
+            c = rng.choice(cs)
+            if c not in self.deps:
+                self.deps.append(c)
+            texts, xs = [], []
+            for _ in c.params:
+                x = self.var() if rng.random() < 0.7 else None
+                if x is not None:
+                    a, xa = x, V(x)
+                else:
+                    a, _, xa = self.expr(0)
+                texts.append(self.atom(a))
+                xs.append(xa)
+            return "%s %s" % (c.name, " ".join(texts)), self.fresh(), call(c.name, *xs)
         if o == "selfcall":
             # a recursive call: every argument has the type of the corresponding parameter, the value the type of the function's result
             if self.selfcalls >= 2 or not hasattr(self, "params"):
@@ -524,6 +544,9 @@ class Fn:
         ast = {"name": self.name, "params": self.params, "stmts": self.stmts, "fin": self.fin}
         if self.forced:
             ast["ptypes"] = [[q, self.forced[q][1]] for q in self.params if q in self.forced]
+        if self.deps:
+            # (no second entry: this generator does not know the inferred types of the functions it calls)
+            return {"name": self.name, "ast": ast, "deps": [{"ast": c.spec()["ast"]} for c in self.deps]}
         return {"name": self.name, "eqs": self.eqs + [[["var", "ret"], self.res]], "params": self.ptypes, "res": self.res, "ast": ast}
 
     def text(self, annots=None):
@@ -812,8 +835,124 @@ class MatchFn(Fn):
         return self
 
 
+class Callee(Fn):
+    """a small generic function with a well-known shape (the callee of CallFn)"""
+    TEMPLATES = [
+        (["a", "b"], "(b, a)", ["tuple", [V("b"), V("a")]]),
+        (["a"], "[a; a]", ["slice", [V("a"), V("a")]]),
+        (["f", "a"], "f a", ["app", "f", [V("a")]]),
+        (["a", "b"], "if a = b then [a] else [b]", ["if", call("eq", V("a"), V("b")), ["slice", [V("a")]], ["slice", [V("b")]]]),
+        (["a"], "ISome a", call("ISome", V("a"))),
+        (["a", "b"], '({Val=a; Tag="t"}, b)', ["tuple", [call("{IBox}", V("a"), LIT["str"]), V("b")]]),
+        (["p"], "frt.Fst p", call("frt.Fst", V("p"))),
+        (["a", "b"], "slice.PushLast a b", call("slice.PushLast", V("a"), V("b"))),
+        (["a", "n"], "(a, n + 1)", ["tuple", [V("a"), call("int+", V("n"), LIT["int"])]]),
+    ]
+
+    def build(self):
+        self.params, text, self.fin = self.rng.choice(self.TEMPLATES)
+        self.params = list(self.params)
+        self.ptypes = [["var", "p_" + q] for q in self.params]
+        self.body = [text]
+        self.res = ["var", "ret"]
+        self.single = True
+        return self
+
+    def spec(self):
+        return {"name": self.name, "ast": {"name": self.name, "params": self.params, "stmts": [], "fin": self.fin}}
+
+
+class CallFn(Fn):
+    """directed family: a generic function is called twice in one caller, with arguments of different (or undetermined) types - every call
+    takes its own instance of the callee's generalised type"""
+
+    def __init__(self, rng, idx, callee):
+        Fn.__init__(self, rng, idx)
+        self.callee = callee
+        self.deps = [callee]
+
+    def arg_for(self, q, kind):
+        """an argument for the callee's parameter q; kind: which of the caller's parameter families to draw from"""
+        rng = self.rng
+        if q == "f":
+            g = self.fresh("g")[1]
+            return "(fun %s -> (%s, 1))" % (g, g), ["lam", g, ["tuple", [V(g), LIT["int"]]]]
+        if q == "p":
+            x = rng.choice(self.fam[kind])
+            return "(%s, 2)" % x, ["tuple", [V(x), LIT["int"]]]
+        if q == "n":
+            return "3", LIT["int"]
+        if q == "b" and self.callee.body[0].startswith("slice.PushLast"):
+            x = rng.choice(self.fam[kind])
+            return "[%s]" % x, ["slice", [V(x)]]
+        x = rng.choice(self.fam[kind])
+        return x, V(x)
+
+    def build(self):
+        rng = self.rng
+        self.params = ["a0", "a1", "a2", "a3"]
+        self.ptypes = [["var", "p_" + q] for q in self.params]
+        self.fam = {0: ["a0", "a1"], 1: ["a2", "a3"]}
+        lines, parts = [], []
+        for kind in (0, 1):
+            texts, xs = [], []
+            for q in self.callee.params:
+                t, x = self.arg_for(q, kind)
+                texts.append(t)
+                xs.append(x)
+            v = self.fresh("v")[1]
+            lines.append("let %s = %s %s" % (v, self.callee.name, " ".join(texts)))
+            self.stmts.append(["let", v, call(self.callee.name, *xs)])
+            parts.append((v, None, V(v)))
+        # the two families get different concrete types, one of them, or none
+        mode = rng.choice(["both", "first", "none", "same"])
+        if mode in ("both", "first", "same"):
+            w = self.fresh("v")[1]
+            lines.append("let %s = a0 + 1" % w)
+            self.stmts.append(["let", w, call("int+", V("a0"), LIT["int"])])
+            parts.append((w, None, V(w)))
+        if mode == "both":
+            w = self.fresh("v")[1]
+            lines.append("let %s = strings.Length a2" % w)
+            self.stmts.append(["let", w, call("strings.Length", V("a2"))])
+            parts.append((w, None, V(w)))
+        if mode == "same":
+            w = self.fresh("v")[1]
+            lines.append("let %s = a2 + 2" % w)
+            self.stmts.append(["let", w, call("int+", V("a2"), LIT["int"])])
+            parts.append((w, None, V(w)))
+        rng.shuffle(parts)
+        while len(parts) > 1:
+            (a, _, xa), (b, _, xb) = parts.pop(), parts.pop()
+            parts.append(("(%s, %s)" % (b, a), None, ["tuple", [xb, xa]]))
+        self.body = lines + [parts[0][0]]
+        self.fin = parts[0][2]
+        self.res = ["var", "ret"]
+        return self
+
+    def spec(self):
+        return {"name": self.name, "ast": {"name": self.name, "params": self.params, "stmts": self.stmts, "fin": self.fin},
+                "deps": [{"ast": self.callee.spec()["ast"]}]}
+
+
 def generate(rng, n):
-    return [(MergeFn(rng, i) if i % 5 == 4 else FldFn(rng, i) if i % 5 == 3 else MatchFn(rng, i) if i % 10 == 2 else Fn(rng, i)).build() for i in range(n)]
+    out = []
+    for i in range(n):
+        if i % 5 == 4:
+            f = MergeFn(rng, i)
+        elif i % 5 == 3:
+            f = FldFn(rng, i)
+        elif i % 10 == 2:
+            f = MatchFn(rng, i)
+        elif i % 10 == 6:
+            f = Callee(rng, i)
+        elif i % 10 == 7:
+            f = CallFn(rng, i, out[-1])
+        else:
+            # the callable ones: recent functions that call nothing themselves and are not recursive
+            f = Fn(rng, i, [c for c in out[-12:] if not c.deps and not c.selfcalls and not c.forced and not isinstance(c, Callee)])
+        out.append(f.build())
+    return out
 
 
 # ------------------------------------------------------------------------------------------ abstract syntax -> Folang text
